@@ -201,12 +201,18 @@ class _Worker:
         self.initialised = False
 
 
+TIME_UNIT = 1e-3  # one task costs one simulated millisecond (a stalled chunk: 1000 times more)
+
+
 class _AsyncResult:
     def __init__(self, pool, job):
         self._pool = pool
         self._job = job
 
     def ready(self):
+        # polling advances the simulation by one event, otherwise `while not r.ready()` would never end
+        if not self._job["done"]:
+            self._pool._step()
         return self._job["done"]
 
     def successful(self):
@@ -215,13 +221,19 @@ class _AsyncResult:
         return self._job["error"] is None
 
     def wait(self, timeout=None):
-        self._pool._drive(self._job)
+        self._pool._drive(self._job, timeout)
 
     def get(self, timeout=None):
-        self._pool._drive(self._job)
+        self._pool._drive(self._job, timeout)
+        if not self._job["done"]:
+            self._pool.sim.res.fault("result_timeout")
+            raise _real_mp.TimeoutError
         if self._job["error"] is not None:
             raise self._job["error"]
-        return self._job["value"]
+        return self._unwrap(self._job["value"])
+
+    def _unwrap(self, v):
+        return v
 
 
 class SimPool:
@@ -272,6 +284,7 @@ class SimPool:
         for j in self.jobs:
             if not j["done"] and self.state == "CLOSE":
                 self._drive(j)
+        self.state = "JOINED"
 
     # -- job creation --------------------------------------------------------
     def _chunks(self, func, iterable, chunksize, star):
@@ -294,8 +307,36 @@ class SimPool:
             out.append(batch)
         return out, chunksize
 
+    def _lazy_batches(self, iterable, chunksize):
+        """imap / imap_unordered: CPython's task handler pulls the iterable lazily, one chunk at a time, and
+        pickles each chunk as soon as it has been collected (tasks of one chunk that alias a mutable object see
+        its state at that moment; different chunks do not alias)."""
+        it = iter(iterable)
+        while True:
+            batch = tuple(itertools.islice(it, chunksize))
+            if not batch:
+                return
+            yield batch
+
     def _submit(self, func, iterable, chunksize, star, kind="map"):
         self._check_running()
+        if kind in ("imap", "imap_unordered"):
+            if chunksize < 1:
+                raise ValueError("Chunksize must be 1+, not {0!r}".format(chunksize))
+            self.sim.seq += 1
+            job = {"id": self.sim.seq, "n": 0, "results": [], "left": 0, "done": False, "error": None, "value": None, "order": [], "kind": kind}
+            self.jobs.append(job)
+            for i, b in enumerate(self._lazy_batches(iterable, chunksize)):
+                payload = pickle.dumps((func, b, star), protocol=pickle.HIGHEST_PROTOCOL)
+                self.sim.chunks += 1
+                job["results"].append(None)
+                job["n"] += 1
+                job["left"] += 1
+                self.queue.append({"job": job, "index": i, "payload": payload, "ntasks": len(b), "gidx": self.sim.chunks - 1})
+            if job["n"] == 0:
+                job["done"], job["value"] = True, []
+            self.sim.res.probe("pool_chunks", job["n"])
+            return job
         batches, chunksize = self._chunks(func, iterable, chunksize, star)
         self.sim.seq += 1
         job = {"id": self.sim.seq, "n": len(batches), "results": [None] * len(batches), "left": len(batches), "done": len(batches) == 0, "error": None, "value": [] if not batches else None, "order": [], "kind": kind}
@@ -328,18 +369,34 @@ class SimPool:
             sim.seq += 1
             heapq.heappush(self.heap, (sim.now + cost, sim.seq, w, chunk))
 
-    def _drive(self, job):
-        """Advance simulated time until `job` is complete (or failed)."""
+    def _step(self):
+        """Process the next completion event, if any."""
         sim = self.sim
+        if self.state == "TERMINATE":
+            return False
+        self._dispatch()
+        if not self.heap:
+            return False
+        t, _, w, chunk = heapq.heappop(self.heap)
+        sim.now = max(sim.now, t)
+        self._execute(w, chunk)
+        return True
+
+    def _drive(self, job, timeout=None):
+        """Advance simulated time until `job` is complete (or failed), or until the timeout (seconds of
+        simulated time, TIME_UNIT per task) has passed."""
+        sim = self.sim
+        deadline = None if timeout is None else sim.now + float(timeout) / TIME_UNIT
         while not job["done"]:
             if self.state == "TERMINATE":
                 raise RuntimeError("simulated pool terminated with a job outstanding")
             self._dispatch()
             if not self.heap:
                 raise RuntimeError("simulated pool deadlock: job outstanding, nothing scheduled")
-            t, _, w, chunk = heapq.heappop(self.heap)
-            sim.now = max(sim.now, t)
-            self._execute(w, chunk)
+            if deadline is not None and self.heap[0][0] > deadline:
+                sim.now = deadline
+                return job
+            self._step()
         return job
 
     def _execute(self, w, chunk):
@@ -382,12 +439,17 @@ class SimPool:
         if not ok:
             job["error"] = value
             job["done"] = True
+            if job.get("error_callback") is not None:
+                job["error_callback"](value)
             return
         job["results"][chunk["index"]] = value
         job["left"] -= 1
         if job["left"] == 0:
             job["value"] = [x for part in job["results"] for x in part]
             job["done"] = True
+            if job.get("callback") is not None:
+                # as in CPython: the callback runs in the parent as soon as the whole result is there
+                job["callback"](job["value"][0] if job["kind"] == "apply" else job["value"])
 
     # -- public API (the map family) -----------------------------------------
     def map(self, func, iterable, chunksize=None):
@@ -397,33 +459,41 @@ class SimPool:
         return _AsyncResult(self, self._submit(func, iterable, chunksize, True)).get()
 
     def map_async(self, func, iterable, chunksize=None, callback=None, error_callback=None):
-        return _AsyncResult(self, self._submit(func, iterable, chunksize, False))
+        job = self._submit(func, iterable, chunksize, False)
+        job["callback"], job["error_callback"] = callback, error_callback
+        if job["done"] and callback is not None:
+            callback(job["value"])
+        return _AsyncResult(self, job)
 
     def starmap_async(self, func, iterable, chunksize=None, callback=None, error_callback=None):
-        return _AsyncResult(self, self._submit(func, iterable, chunksize, True))
+        job = self._submit(func, iterable, chunksize, True)
+        job["callback"], job["error_callback"] = callback, error_callback
+        if job["done"] and callback is not None:
+            callback(job["value"])
+        return _AsyncResult(self, job)
 
     def apply(self, func, args=(), kwds={}):
         return self.apply_async(func, args, kwds).get()
 
     def apply_async(self, func, args=(), kwds={}, callback=None, error_callback=None):
         job = self._submit(_ApplyCall(func, kwds), [tuple(args)], 1, True, kind="apply")
-        r = _AsyncResult(self, job)
+        job["callback"], job["error_callback"] = callback, error_callback
 
         class _One(_AsyncResult):
-            def get(s, timeout=None):
-                return _AsyncResult.get(s, timeout)[0]
+            def _unwrap(s, v):
+                return v[0]
 
         return _One(self, job)
 
     def imap(self, func, iterable, chunksize=1):
-        job = self._submit(func, list(iterable), chunksize, False, kind="imap")
+        job = self._submit(func, iterable, chunksize, False, kind="imap")
         self._drive(job)
         if job["error"] is not None:
             raise job["error"]
         return iter(job["value"])
 
     def imap_unordered(self, func, iterable, chunksize=1):
-        job = self._submit(func, list(iterable), chunksize, False, kind="imap_unordered")
+        job = self._submit(func, iterable, chunksize, False, kind="imap_unordered")
         self._drive(job)
         if job["error"] is not None:
             raise job["error"]
@@ -438,3 +508,198 @@ class _ApplyCall:
 
     def __call__(self, *args):
         return self.func(*args, **self.kwds)
+
+
+# ----------------------------------------------------------------------------
+# concurrent.futures façade on top of SimPool (ProcessPoolExecutor, as_completed, wait)
+# ----------------------------------------------------------------------------
+
+import concurrent.futures as _cf
+
+
+class SimFuture(_cf.Future):
+    def __init__(self, executor, job):
+        super().__init__()
+        self._sim_ex = executor
+        self._sim_job = job
+        self.set_running_or_notify_cancel()
+
+    def _sync(self):
+        j = self._sim_job
+        if j["done"] and not _cf.Future.done(self):
+            if j["error"] is not None:
+                self.set_exception(j["error"])
+            else:
+                v = j["value"]
+                self.set_result(v[0] if j["kind"] == "apply" else v)
+
+    def done(self):
+        if not self._sim_job["done"]:
+            self._sim_ex._pool._step()
+        self._sim_ex._sync_all()
+        return _cf.Future.done(self)
+
+    def running(self):
+        return not self._sim_job["done"]
+
+    def cancel(self):
+        return False
+
+    def result(self, timeout=None):
+        self._sim_ex._pool._drive(self._sim_job, timeout)
+        self._sim_ex._sync_all()
+        if not self._sim_job["done"]:
+            self._sim_ex._pool.sim.res.fault("result_timeout")
+            raise _cf.TimeoutError()
+        return _cf.Future.result(self, 0)
+
+    def exception(self, timeout=None):
+        self._sim_ex._pool._drive(self._sim_job, timeout)
+        self._sim_ex._sync_all()
+        if not self._sim_job["done"]:
+            raise _cf.TimeoutError()
+        return _cf.Future.exception(self, 0)
+
+
+class SimExecutor:
+    """Stand-in for concurrent.futures.ProcessPoolExecutor: every submit is one task that crosses the
+    process boundary through pickle and runs on a simulated worker; completion order is the simulator's."""
+
+    def __init__(self, sim, max_workers=None, mp_context=None, initializer=None, initargs=(), max_tasks_per_child=None):
+        if max_workers is not None and max_workers <= 0:
+            raise ValueError("max_workers must be greater than 0")
+        self._pool = SimPool(sim, max_workers or sim.cpu_count, initializer, initargs, max_tasks_per_child)
+        self._futures = []
+        self._completed = []  # futures in simulated completion order
+        self._shutdown = False
+        sim.res.probe("executor_created")
+
+    def _sync_all(self):
+        # futures are completed by the job callbacks at the moment their chunk finishes; nothing to scan
+        return
+
+    def submit(self, fn, /, *args, **kwargs):
+        if self._shutdown:
+            raise RuntimeError("cannot schedule new futures after shutdown")
+        job = self._pool._submit(_ApplyCall(fn, kwargs), [tuple(args)], 1, True, kind="apply")
+        fut = SimFuture(self, job)
+        self._futures.append(fut)
+        def on_done(_v, fut=fut):
+            fut._sync()
+            self._completed.append(fut)
+
+        job["callback"] = on_done
+        job["error_callback"] = on_done
+        return fut
+
+    def map(self, fn, *iterables, timeout=None, chunksize=1):
+        if chunksize < 1:
+            raise ValueError("chunksize must be >= 1.")
+        job = self._pool._submit(fn, list(zip(*iterables)), chunksize, True, kind="map")
+        pool = self._pool
+
+        def gen():
+            pool._drive(job, timeout)
+            if not job["done"]:
+                raise _cf.TimeoutError()
+            if job["error"] is not None:
+                raise job["error"]
+            yield from job["value"]
+
+        return gen()
+
+    def shutdown(self, wait=True, cancel_futures=False):
+        self._shutdown = True
+        if wait and self._pool.state == "RUN":
+            for j in list(self._pool.jobs):
+                if not j["done"]:
+                    self._pool._drive(j)
+            self._sync_all()
+        self._pool.close()
+
+    def __enter__(self):
+        return self
+
+    def __exit__(self, *a):
+        self.shutdown(wait=True)
+        return False
+
+
+def sim_as_completed(fs, timeout=None):
+    fs = list(fs)
+    if not all(isinstance(f, SimFuture) for f in fs):
+        yield from _REAL_CF["as_completed"](fs, timeout)
+        return
+    want = set(id(f) for f in fs)
+    yielded = set()
+    executors = []
+    for f in fs:
+        if f._sim_ex not in executors:
+            executors.append(f._sim_ex)
+    cursor = {id(ex): 0 for ex in executors}
+    while len(yielded) < len(want):
+        progressed = False
+        for ex in executors:
+            done = ex._completed
+            while cursor[id(ex)] < len(done):
+                f = done[cursor[id(ex)]]
+                cursor[id(ex)] += 1
+                if id(f) in want and id(f) not in yielded:
+                    yielded.add(id(f))
+                    progressed = True
+                    yield f
+        if len(yielded) == len(want):
+            break
+        if not progressed:
+            stepped = False
+            for ex in executors:
+                if ex._pool._step():
+                    stepped = True
+                    break
+            if not stepped:
+                raise RuntimeError("simulated executor deadlock in as_completed")
+
+
+def sim_wait(fs, timeout=None, return_when="ALL_COMPLETED"):
+    fs = list(fs)
+    if not all(isinstance(f, SimFuture) for f in fs):
+        return _REAL_CF["wait"](fs, timeout, return_when)
+    done = []
+    for f in sim_as_completed(fs):
+        done.append(f)
+        if return_when == "FIRST_COMPLETED" or (return_when == "FIRST_EXCEPTION" and _cf.Future.exception(f, 0) is not None):
+            break
+    return _cf._base.DoneAndNotDoneFutures(set(done), set(f for f in fs if f not in done))
+
+
+_REAL_CF = {"ProcessPoolExecutor": _cf.ProcessPoolExecutor, "as_completed": _cf.as_completed, "wait": _cf.wait}
+
+
+class patched_futures:
+    """Route concurrent.futures.ProcessPoolExecutor / as_completed / wait (and copies of those names imported
+    into the given modules) through the simulator."""
+
+    def __init__(self, sim, modules=()):
+        self.sim, self.modules = sim, list(modules)
+
+    def __enter__(self):
+        sim = self.sim
+
+        def make(*a, **k):
+            return SimExecutor(sim, *a, **k)
+
+        self.repl = {"ProcessPoolExecutor": make, "as_completed": sim_as_completed, "wait": sim_wait}
+        self.saved = []
+        import concurrent.futures.process as _cfp
+
+        for holder in [_cf, _cfp] + self.modules:
+            for name, new in self.repl.items():
+                cur = getattr(holder, name, None)
+                if cur is not None and cur is _REAL_CF[name]:
+                    self.saved.append((holder, name, cur))
+                    setattr(holder, name, new)
+        return self
+
+    def __exit__(self, *a):
+        for holder, name, cur in self.saved:
+            setattr(holder, name, cur)
